@@ -898,6 +898,29 @@ func (c *Ctx) RuleLock(pkg *ssa.Package, varName, muName string) {
 		c.add("undecided", "C19.lock", nil, token.NoPos, "anchor globals not found")
 		return
 	}
+	if _, isPtr := mu.Type().(*types.Pointer).Elem().Underlying().(*types.Pointer); isPtr {
+		// the mutex is held by pointer: the pointer is set in the package initialiser and nowhere else, and only
+		// loaded to call its methods (a second mutex swapped in protects nothing)
+		for _, fn := range SortedFuncs(c.AllRepoFuncs()) {
+			for _, b := range fn.Blocks {
+				for _, in := range b.Instrs {
+					for _, op := range in.Operands(nil) {
+						if *op != ssa.Value(mu) {
+							continue
+						}
+						st, isStore := in.(*ssa.Store)
+						ld, isLoad := in.(*ssa.UnOp)
+						switch {
+						case isStore && st.Addr == ssa.Value(mu) && fn.Name() == "init" && fn.Parent() == nil:
+						case isLoad && ld.Op == token.MUL && onlyMutexReceiver(ld):
+						default:
+							c.addc("violated", "C19.lock", fn, in.Pos(), "mutex pointer", muName+" is a pointer that is set or handed on outside the package initialiser: the lock taken need not be the lock the other callers take", "")
+						}
+					}
+				}
+			}
+		}
+	}
 	users := 0
 	for _, fn := range SortedFuncs(c.AllRepoFuncs()) {
 		if fn.Name() == "init" {
@@ -1051,7 +1074,16 @@ func isMutexCall(in ssa.Instruction, mu *ssa.Global, name string) bool {
 		return false
 	}
 	f := cc.StaticCallee()
-	return f != nil && f.String() == "(*sync.Mutex)."+name && len(cc.Args) == 1 && cc.Args[0] == mu
+	if f == nil || f.String() != "(*sync.Mutex)."+name || len(cc.Args) != 1 {
+		return false
+	}
+	if cc.Args[0] == mu {
+		return true
+	}
+	// a mutex held by pointer (var mu = &sync.Mutex{}): the receiver is a load of the variable; RuleLock checks that
+	// the variable is set once, in the package initialiser
+	ld, ok := cc.Args[0].(*ssa.UnOp)
+	return ok && ld.Op == token.MUL && ld.X == ssa.Value(mu)
 }
 
 // lockHeldAt: must-held analysis of mu over fn's flow graph: entering fn the lock is held only if fn is an unexported
@@ -1068,6 +1100,14 @@ func (c *Ctx) lockHeld(fn *ssa.Function, at ssa.Instruction, mu *ssa.Global, dep
 		for caller := range c.AllRepoFuncs() {
 			for _, b := range caller.Blocks {
 				for _, in := range b.Instrs {
+					// the function used as a value (handed to a helper, stored): whoever calls it is not known
+					for _, op := range in.Operands(nil) {
+						if g, isFn := (*op).(*ssa.Function); isFn && origin(g) == origin(fn) {
+							if ci, isCall := in.(ssa.CallInstruction); !isCall || op != &ci.Common().Value {
+								all = false
+							}
+						}
+					}
 					call, ok := in.(ssa.CallInstruction)
 					if !ok {
 						continue
@@ -1532,4 +1572,24 @@ func freshClockSeed(call *ssa.Call) bool {
 	}
 	f := n.Call.StaticCallee()
 	return f != nil && f.String() == "time.Now"
+}
+
+// onlyMutexReceiver: the loaded mutex pointer is used only as the receiver of Lock/Unlock/TryLock calls.
+func onlyMutexReceiver(ld *ssa.UnOp) bool {
+	refs := ld.Referrers()
+	if refs == nil {
+		return false
+	}
+	for _, r := range *refs {
+		ci, ok := r.(ssa.CallInstruction)
+		if !ok {
+			return false
+		}
+		cc := ci.Common()
+		f := cc.StaticCallee()
+		if f == nil || !strings.HasPrefix(f.String(), "(*sync.Mutex).") || len(cc.Args) != 1 || cc.Args[0] != ssa.Value(ld) {
+			return false
+		}
+	}
+	return true
 }
